@@ -10,6 +10,7 @@ Code inspired by/based on https://github.com/tomchy/suit-composer.
 from __future__ import annotations
 from dataclasses import dataclass
 from typing import cast, Any
+from collections.abc import Mapping
 import functools
 import binascii
 import logging
@@ -154,12 +155,44 @@ class SuitObject(PrettyPrintHelperMixin):
             )
 
     @staticmethod
+    def reject_shared_values(obj: Any) -> None:
+        """Reject decoded data in which one object is referenced more than once.
+
+        cbor2 resolves the value sharing (28, 29) and string reference (25, 256) tags into repeated references
+        to a single object. Serializing such a structure again expands every reference, so a short input may
+        request time and memory exponential in its length. SUIT envelopes do not use these tags.
+        """
+        seen = {}
+        pending = [obj]
+        while pending:
+            item = pending.pop()
+            if isinstance(item, (str, bytes)):
+                if len(item) < 2:
+                    continue
+            elif isinstance(item, cbor2.CBORTag):
+                pending.append(item.value)
+            elif isinstance(item, Mapping):
+                pending.extend(item.keys())
+                pending.extend(item.values())
+            elif isinstance(item, (list, tuple, set, frozenset)):
+                if len(item) == 0:
+                    continue
+                pending.extend(item)
+            else:
+                continue
+            if id(item) in seen:
+                raise ValueError("Shared values are not supported!")
+            seen[id(item)] = True
+
+    @staticmethod
     def deserialize_cbor(cbstr: bytes) -> Any:
         """Verify and deserialize cbor object."""
         # Ensure that cbor2.loads() will not consume all the available memory
         SuitObject.validate_cbor(cbstr)
         try:
-            return cbor2.loads(cbstr)
+            obj = cbor2.loads(cbstr)
+            SuitObject.reject_shared_values(obj)
+            return obj
         except ImportError as err:
             # Can occur due to possible incompatibilities in packages between virtual environment and system scope
             # (seen on Windows, where cbor2 was installed globally and in virtual environment)
